@@ -274,10 +274,10 @@ class Gen:
             ordered = True
             if allow_limit and r.random() < 0.4:
                 self.features.add('limit')
-                s += f' LIMIT {r.choice([1, 2, 3, 10])}'
+                s += f' LIMIT {r.choice([0, 1, 2, 3, 10, 100])}'
                 if r.random() < 0.5:
                     self.features.add('offset')
-                    s += f' OFFSET {r.choice([0, 1, 2])}'
+                    s += f' OFFSET {r.choice([0, 1, 2, 7])}'
         return s, ordered
 
     def query(self):
